@@ -1,4 +1,5 @@
 import H2T.Lemmas.WrapInv
+import H2T.Lemmas.PreVerbatim
 
 /-! # C12 — preformatted text keeps its lines and spacing
 
@@ -6,8 +7,16 @@ Status: **partial** — proved on the wrap machine in `pre` mode: a newline alwa
 empty one, so interior blank lines are kept) and clears pending spaces (line-trailing spaces are removed); a
 non-whitespace character is never dropped — it is appended to the pending word with the main tag, or with the
 continuation tag exactly from the point where the line would overflow; every emitted piece fits the width (the
-C02 wrap-layer theorem applies to all three white-space modes).  The line-for-line reproduction in the fits-case
-and tab expansion to 8-column stops are decided by correspondence and an independent reference in the harness.
+C02 wrap-layer theorem applies to all three white-space modes).  **The fits-case is proved for the wrap machine**
+(`pre_block_reproduced`, `Lemmas/PreVerbatim`): a block of source lines each of whose expansion — tabs to 8-column stops
+from the current column, a whitespace character of width `w` as `w` blanks, characters without width dropped — fits the
+width is emitted line for line, each output line being the expansion minus trailing blanks, tagged with the main tag
+only.  (The proof attempt found a genuine defect, repaired by `fix:` 33c7307: a word consisting only of zero-width
+characters was not flushed at the whitespace after it, so the invariant "line ++ pending blanks ++ word = expansion"
+failed; two related corners — such a word at the start of a line in normal mode, and a `<br>` after a line holding
+only such characters — are known findings.)  That the sub-renderer feeds a `<pre>` element's text to the machine as such
+lines (the newline directly after `<pre>` dropped by the HTML parser, `<br>` as a hard line break) is decided by
+correspondence and an independent reference in the harness.
 The property's claim about continuation tags is *refuted* for the unchanged code (a known finding): the
 continuation tag starts at the character where a word first exceeds the line, not at the start of the
 continuation piece. -/
@@ -16,7 +25,7 @@ namespace H2T.C12
 
 /-- In `pre` mode a newline with no pending word flushes the line unconditionally: the finished-line list grows
     by exactly one line — an empty source line becomes an empty output line — and pending spaces are dropped. -/
-theorem newline_ends_line (b : WB) (mt wt : Tag) (cur : Bool) (hw : b.wordlen = 0) :
+theorem newline_ends_line (b : WB) (mt wt : Tag) (cur : Bool) (hw : b.word.noContent = true) :
     let nl : Ch := ⟨10, 0, true, true⟩
     ∃ b', b.addChar .pre mt wt cur nl = .ok (b', false) ∧ b'.text.length = b.text.length + 1 ∧
       b'.line = [] ∧ b'.wslen = 0 ∧ b'.spacetag = none ∧ b'.preWrapped = false := by
@@ -56,5 +65,27 @@ example :
     ((({ width := 10 } : WB).addText .pre [] [] ([mkCh 97, mkCh 98, nl, nl, spaceCh, mkCh 99, mkCh 100, spaceCh, spaceCh, nl, mkCh 101, mkCh 102])).toOption.bind
       fun b => b.finish.toOption.map fun ls => ls.map fun l => l.filterMap fun e => match e with | .cell c => some c.ch.cp | _ => none)
       = some [[97, 98], [], [32, 99, 100], [101, 102]] := by decide +kernel
+
+/-- **a preformatted block whose lines fit is reproduced line for line** (wrap machine, `pre` mode, no block padding):
+    the lines `ls`, each followed by a newline, fed to a block standing at the start of a line, give exactly one output
+    line per source line; output line `i` is the expansion of source line `i` (tabs to 8-column stops, other whitespace
+    as blanks of the character's width, characters without width dropped) minus some trailing blanks; nothing is wrapped
+    and every cell carries the main tag -/
+theorem pre_block_reproduced (tag wt : Tag) (nl : Ch) (hnl : nl.cp = 10) (hws : nl.ws = true) (ls : List (List Ch)) (b : WB)
+    (h : PreInv tag b []) (hp : b.padBlocks = false)
+    (hfit : ∀ l ∈ ls, (∀ c ∈ l, c.cp ≠ 10) ∧ lw (expandGo tag [] l) ≤ b.width) :
+    ∃ b' Ls, b.addTextGo .pre tag wt false (ls.flatMap (· ++ [nl])) = .ok b' ∧ b'.text = b.text ++ Ls ∧ Ls.length = ls.length ∧
+      (∀ i (_ : i < ls.length) (_ : i < Ls.length), ∃ k, expandGo tag [] ls[i] = Ls[i] ++ List.replicate k (spc tag)) ∧
+      PreInv tag b' [] :=
+  pre_block_verbatim tag wt nl hnl hws ls b h hp hfit
+
+/-- a freshly created block satisfies the theorem's invariant -/
+theorem fresh_block_preinv (tag : Tag) (w : Nat) (ov : Bool) : PreInv tag ({ width := w, overflow := ov } : WB) [] :=
+  ⟨new_inv w false ov, rfl, fun h => by simp at h, rfl, fun x hx => by simp at hx⟩
+
+/-- tab stops: from column 3 a tab adds 5 blanks, from column 8 it adds 8 -/
+example : tabN 3 = 5 ∧ tabN 8 = 8 ∧ tabN 0 = 8 := by decide
+/-- non-vacuity: "a<TAB>b" expands to `a`, seven blanks, `b` -/
+example : (expandGo [] [] [mkCh 97, ⟨9, 0, true, true⟩, mkCh 98]).length = 9 := by decide
 
 end H2T.C12
